@@ -218,14 +218,23 @@ impl RoutingThread {
                     .await;
             }
             Message::KeyListUpdate(key_list) => {
-                self.network
+                if let Err(e) = self
+                    .network
                     .handle_received_key_list(peer_index, key_list)
                     .await
-                    .unwrap();
+                {
+                    warn!(
+                        "key list from peer : {:?} was not accepted : {:?}",
+                        peer_index, e
+                    );
+                }
             }
             Message::Block(_) => {
-                error!("received block message");
-                unreachable!();
+                // blocks are fetched over the block fetch url, never pushed as messages
+                warn!(
+                    "ignoring block message received from peer : {:?}",
+                    peer_index
+                );
             }
         }
     }
@@ -262,8 +271,21 @@ impl RoutingThread {
         let mut peer_key_list: Vec<SaitoPublicKey> = vec![];
         {
             let peers = self.network.peer_lock.read().await;
-            let peer = peers.find_peer_by_index(peer_index).unwrap();
-            peer_key_list.push(peer.public_key.unwrap());
+            let Some(peer) = peers.find_peer_by_index(peer_index) else {
+                warn!(
+                    "peer : {:?} not found. ignoring ghost chain request",
+                    peer_index
+                );
+                return;
+            };
+            let Some(public_key) = peer.public_key else {
+                warn!(
+                    "peer : {:?} has not completed the handshake. ignoring ghost chain request",
+                    peer_index
+                );
+                return;
+            };
+            peer_key_list.push(public_key);
             peer_key_list.append(&mut peer.key_list.clone());
         }
 
